@@ -3,7 +3,7 @@ prop(
     quick=[("native", 16)],
     thorough=[("native", 16), ("asan", 8), ("miri", 4), ("fuzz", 16)],
     level="exploration",
-    min_evals={"quick": 900_000, "thorough": 12_000_000},
+    min_evals={"quick": 1_000_000, "thorough": 12_000_000},
     # configuration of the `fuzz` stage (see fixes/check-fuzz-stage.patch for the driver side)
     fuzz={
         "seconds": 240,
@@ -40,6 +40,20 @@ prop(
         "unknown signed attributes of a protocol message (up to the 65535-octet limit), RTA subject keys / AS and IP blocks / certificate bag / CRL bag / signer infos, RFC 6492 list_response (n AS numbers, n prefixes, n classes, n issued certificates) and RFC 8181 list reply / publish-withdraw query with n elements — "
         "each written by the independent DER writer at n entries (about 100 kB), 4n, 16n (about 1.6 MB) and, in the thorough tier, 64n (about 6.4 MB; a size is only entered while the laws held so far and its predicted cost stays under 1 s / 4 s of CPU per run), in scrambled order where the order is free, spliced into a pool-signed seed and re-signed where the list lives inside a signed object; every such input goes through the ordinary evaluation, "
         "then the decoding step alone (decode_only) and decode + sweep are timed (thread CPU clock, minima of 5 and 3 runs; 7 and 4 thorough) and their peak heap taken at both sizes, through each home entry point of the shape (80 shape x entry point pairs and 160 size steps in quick, 233 in thorough, spread over the shards; observation counters scale:* name the regions reached, the steps compared per size class and the largest factors seen); n varies by up to 12 % with the seed; "
+        "iterators of decoded values under the standard iterator adapters (c04_iter.rs): an interpreter for adapter programs — a few positioning calls (next, nth(d), size_hint) on a fresh iterator of the value, then one consuming adapter "
+        "(count, last, fold, collect, skip(d) + next / count / last / nth, step_by(d) + next.. / nth, take(d) + nth / last / count, enumerate().nth, chain(fresh).nth, peekable().peek/nth) — with distances given relative to what remains "
+        "(to the last item, exactly to the end, one and more past it) or absolutely (0, 1, 2^24, 2^31, 2^32-1, 2^32, usize::MAX); every result is compared with a reference obtained by plain next() stepping on another fresh iterator of the same value "
+        "(bounded: first 64 items in the sweep, 256 in the workload), extended for AsBlock::iter / into_iter / AsBlocks::iter_asns by the arithmetic the block's own min()/max() prescribe (member i of ASmin-ASmax is min+i; only used when the stepped prefix agrees with it), "
+        "so that programs are judged on blocks of billions of members without walking them; a program is only run when its cost on an iterator without any shortcut (nth(n) = n steps) fits the step budget. "
+        "Iterator types that also implement DoubleEndedIterator / ExactSizeIterator (found at compile time by method-resolution order, so the harness compiles whether or not a given type has them) get rev, next_back, nth_back, meeting in the middle, rfold and len as well. "
+        "Inside the accessor sweep of every accepted value a fixed plan of 57 programs runs over AsBlock::iter / into_iter (blocks at both ends of a list and those touching AS0 / AS4294967295), AsBlocks::iter, iter_asns, IpBlocks::iter, AddressRange::to_v4_prefixes / to_v6_prefixes, "
+        "RevokedCertificates::iter, ManifestContent::iter / iter_uris, RoaIpAddresses::iter, RouteOriginAttestation::iter / iter_origins, ProviderAsSet::iter, SmallAsnSet::iter and its difference / symmetric_difference / intersection / union iterators, Tal::uris, OctetString::iter / octets "
+        "(at most 48 iterators and 4096 steps per program per evaluation, so the cost does not grow with the value); a workload of its own generates 16 k (quick) / 320 k (thorough) values whose members sit at the ends of the number spaces "
+        "(AS block lists whose blocks end at AS4294967295, AS4294967294, 2^31, 65535, 0.. and reach down by 1 .. 2^22 .. all members; IPv4 / IPv6 block lists from the C03 endpoint pool; manifest file lists and revoked-certificate lists of 0 .. 257 entries with serial numbers at the ends of 20 octets; "
+        "ROA contents with /0, /32, /128 prefixes at both ends of the address space and ASPA provider sets holding AS0 / AS4294967295, spliced into pool-signed objects and re-signed), decodes them through AsBlocks / AsResources (DER, BER), IpBlocks, ManifestContent, RevokedCertificates::take_from, Roa / Aspa::decode "
+        "and runs the fixed plan plus 24 (32) random programs on every iterator of the value (one evaluation per value; a quarter also go through the ordinary evaluation); "
+        "walks over all 2^32 members of AS0-AS4294967295 (count, last, nth(2^32-1), nth(2^32), next + nth(2^32-1), step_by(2^24), step_by(2^32-1), skip(len-3), skip(len-2).count, skip.nth, chain.nth, take(usize::MAX).last, two nth in a row, iter_asns().count / last): one per native shard in quick, so that each of sixteen programs is walked once per run, four per shard in thorough also over AS1-AS4294967295, AS0-AS4294967294, AS2147483648-AS4294967295; "
+        "case signatures of this workload are (kind of value, shape of the value: canonical or as drawn, number of blocks / entries, size class of the largest block, touches AS4294967295 / AS0 / whole space, decoded or refused) and (block, iterator, program) of a walk; observation counters iterlaws:* say how many iterators, programs, compared results, jumps past the end, size hints, double-ended / exact-size iterators were seen and how many programs were not run for cost; "
         "5 raw byte mutators; random strings; text mutators for TALs; for pool-signed seeds one mutant in 8 (16 thorough) is mutated inside a signed region and "
         "re-signed (message digest, signed attributes, EE certificate, CRL) so that it passes the signature checks; towers of 10^2..10^4 (3*10^4 thorough) nested "
         "constructed values, bare and planted inside real objects, each evaluated in a child process on a 2 MiB thread stack. "
@@ -56,6 +70,11 @@ prop(
         "a linear or n log n decoder measures 3.6-4.6 on the pinned tree (up to 5.9 with 16 shards on a machine at load 100), a quadratic one 12-30. A CPU excess only counts after three further runs of the large input that all exceed, each next to a steady reference computation, and is dropped as soon as one run satisfies the law (the clock only over-counts); "
         "pairs whose size factor falls outside 2.5..4.5 or that a decoder refuses are counted and not judged; the next size is not entered when a law is already broken or the predicted CPU time of one run exceeds 1 s (quick) / 4 s (thorough) — the watchdog would otherwise kill the shard; "
         "a quadratic term that is small against the linear cost of the accessor sweep (a memmove per entry, say) needs the larger sizes to reach a factor of 8 and can stay below it",
+        "iterator adapters: a result that differs from plain next() stepping on the same value is reported (C04:iter-disagrees:<iterator>:<adapter>) next to panics, because an adapter that yields members the iteration does not have, or does not end where it ends, is how a position shortcut makes a loop over skip / step_by run on; "
+        "size_hint is held to its contract only (lower <= remaining <= upper; collect and extend reserve memory for the lower bound), results after the first None are ignored (an iterator need not be fused) but must not panic; "
+        "the arithmetic continuation takes min()/max() of the decoded block as given (two accessors of the library against a third) and is dropped, with a counter, when stepping contradicts it; "
+        "programs whose cost on an iterator without shortcuts exceeds the step budget (2^12 per program in the sweep, 2^16 / 2^20 in the workload, 2^34 in a walk) are counted and not run, so a shortcut that only misbehaves after more than that many members of one block is seen by the sixteen walks only; "
+        "step_by(s).nth(n) is not run when s*(n+1) exceeds usize (std's StepBy::nth then subtracts in a loop of up to s rounds: std's time, not the library's); the walks over 2^32 members run outside the CPU budget and outside the runaway watchdog (an iterator without shortcuts needs about 7 s for one)",
         "in the accessor sweep of block lists longer than 512 blocks the two look-ups that scan from the front (contains_block / intersects_block) are made for every 16th block and the last eight, not for each of up to 4096: asking for each would be a quadratic of the harness's own making; "
         "the five IP resource decoders of the ipres entry points are run decode-sweep-drop one after the other so that the heap budget is not charged with five live copies",
         "a runaway evaluation (more than 20 s of worker CPU time, read by a watchdog thread from the worker's CPU clock) aborts the shard, an allocation blow-up hits RLIMIT_AS; both are reported by the driver from the breadcrumb after the re-run died the same way; the wall-clock watchdog alone only yields inconclusive",
@@ -70,13 +89,14 @@ prop(
     level_text=(
         "Runtime monitoring of the real decoders on hostile inputs: ~1.9 million (quick) / ~23 million (thorough, native stage) decode-and-sweep evaluations of structure-aware mutants under "
         "panic capture, a counting allocator and the thread CPU clock, repeated under AddressSanitizer (200 k mutants), Miri (pure-parse sub-structures, ~300 evaluations) and 4 minutes of "
-        "coverage-guided libFuzzer (16 forks, ASan, 40-50 million executions) over four targets that call the same evaluation function; process death (stack overflow, abort, allocation failure, CPU limit) is observed "
+        "coverage-guided libFuzzer (16 forks, ASan, 40-50 million executions) over four targets that call the same evaluation function; iterators of decoded values are additionally driven through the standard adapters (nth, skip, step_by, take, count, last, fold, collect, chain, enumerate, peekable; rev / nth_back / len where implemented) with distances at and past the end and at the ends of the number spaces, every result compared with plain next() stepping (about 80 million compared results in quick); process death (stack overflow, abort, allocation failure, CPU limit) is observed "
         "through child processes and the driver's breadcrumb protocol; 'a fixed multiple of the input size' is additionally observed as growth: 49 generated shapes of 0.1 / 0.4 / 1.6 (/ 6.4) MB compared pairwise under a CPU and a heap scaling law. This is the strongest level this technique family offers for a 'for all byte strings' property; it samples."
     ),
     level_note=(
         "Trusts the harness' own TLV parser/serialiser, the counting allocator and CLOCK_THREAD_CPUTIME_ID; cannot show absence of panics on inputs not generated; "
+        "the iterator adapter comparison trusts plain next() stepping as the reference (a defect common to next() and an adapter is not seen by it; next() itself is under the ordinary sweep) and its own interpreter of adapter programs; methods an iterator type may override but no adapter used here routes through are not reached; "
         "ASan/Miri see only what the workload executes; aws-lc internals are exercised (hostile keys and signatures) but only watched by ASan-less native code and libFuzzer's ASan build of the Rust side."
     ),
-    technique="runtime monitoring: structure-aware DER/BER mutation + accessor sweep under catch_unwind / counting allocator / CPU clock; generated large inputs (every list-like structure at n, 4n, 16n entries) under CPU and heap scaling laws between sizes; ASan; Miri; libFuzzer",
+    technique="runtime monitoring: structure-aware DER/BER mutation + accessor sweep under catch_unwind / counting allocator / CPU clock; iterators of decoded values under adapter programs compared with next() stepping; generated large inputs (every list-like structure at n, 4n, 16n entries) under CPU and heap scaling laws between sizes; ASan; Miri; libFuzzer",
     design_ref="DESIGN.md §4 C04",
 )
